@@ -169,7 +169,9 @@ func ExecuteRace(ctx context.Context, members []Member) (proto.Message, int, err
 // The returned chan will contain the responses in completion order.
 // The chan will be closed once all members have returned a result.
 func executeEach(ctx context.Context, members []Member) <-chan memberResponse {
-	responses := make(chan memberResponse)
+	// buffered so that a member can always deliver its response and finish,
+	// even if the caller (ExecuteFast, ExecuteRace) has already returned and no longer receives
+	responses := make(chan memberResponse, len(members))
 	var all sync.WaitGroup
 	all.Add(len(members))
 
